@@ -30,8 +30,8 @@ MANIFEST = dict(
          "every run by an oracle on the real implementation: generated accepted programs (arithmetic with prefixes, "
          "integer/fractional/composite constant exponents, derived units and dimensions, generic and inferred "
          "functions, where-clauses, conditionals, lists) are executed, no IncompatibleUnits-type run-time error may "
-         "occur, and the raw unit of every global (hook) must have the inferred dimension. Two confirmed violation "
-         "classes are open findings (C01-exponent-f64, C01-funref-rebinding).",
+         "occur, and the raw unit of every global (hook) must have the inferred dimension. Four confirmed violation "
+         "classes are open findings (C01-exponent-f64, C01-funref-rebinding, C01-zero-unitless, C01-duplicate-base-unit).",
     design_ref="DESIGN.md §6 C01, §7 #1 #2; design/dim.md",
     note="Trusted: Coq kernel + vm_compute; hand-written model; hooks numbat::verif::dim (raw global value, unit "
          "dimension computed from the unit registry); Python float arithmetic = IEEE f64 for the finding matcher.",
@@ -237,6 +237,12 @@ def run(chk):
         for fd in known:
             m = fd.get("matcher", {})
             if m.get("kind") == "exact-input" and m["input"].strip() == src.strip():
+                kf = fd
+            elif src.strip() in [x.strip() for x in m.get("exact_inputs", [])]:
+                kf = fd
+            elif m.get("kind") == "zero-literal-unitless" and f["kind"].startswith("run-time unit") \
+                    and f.get("runtime_unit") == "q||D[]" \
+                    and re.search(r"(?m)^let %s(: [^=]*)? = 0$" % re.escape(f.get("name", "?")), src):
                 kf = fd
             elif m.get("kind") == "power-exponent-f64-differs" and sts is not None and f64_exponent_differs(sts) \
                     and (f["kind"].startswith("run-time unit") or "ncompatible" in f.get("runtime_error", "")):
